@@ -239,6 +239,16 @@ def gen_defaults():
         raise TieBroken(T, "create_timescale argument order changed")
     if not re.search(r"pub fn new\(duration: f32, delay: f32, repeat: Repeat, reverse: bool\) -> Self\s*\{\s*Self\s*\{\s*duration,\s*delay,\s*repeat,\s*reverse,?\s*\}", ts):
         raise TieBroken(T, "TimeScale::new changed")
+    # `impl Default for TimeScale`
+    tm = re.search(r"impl Default for TimeScale\s*\{\s*fn default\(\) -> Self\s*\{\s*Self\s*\{(.*?)\}\s*\}\s*\}", ts, flags=re.S)
+    if not tm:
+        raise TieBroken(T, "Default for TimeScale not found")
+    tsf = dict((a.strip(), b.strip()) for a, b in (x.split(":", 1) for x in tm.group(1).split(",") if ":" in x))
+    ts_delay = parse_dec(tsf.get("delay", "?"), T)
+    ts_dur = parse_dec(tsf.get("duration", "?"), T)
+    ts_rep, ts_rev = tsf.get("repeat"), tsf.get("reverse")
+    if ts_rep not in ("Repeat::None", "Repeat::Infinite") or ts_rev not in ("true", "false"):
+        raise TieBroken(T, f"TimeScale default repeat/reverse {ts_rep!r} {ts_rev!r}")
     om = re.search(r"fn as_ordinal\(&self\) -> (\w+)\s*\{\s*match self\s*\{(.*?)\}\s*\}", src, flags=re.S)
     if not om:
         raise TieBroken(T, "Repeat::as_ordinal not found")
@@ -261,6 +271,11 @@ def gen_defaults():
            f"def defaultRepeatInfinite : Bool := {'true' if rep == 'Repeat::Infinite' else 'false'}",
            f"def defaultReverse : Bool := {rev}",
            f"/-- `Repeat::Infinite.as_ordinal()` -/\ndef infiniteOrdinal : Nat := {infv}",
+           "/-- `Default for TimeScale` (the doc-hidden helper's own default) -/",
+           f"def tsDefaultDelay : Bool × Nat × Nat := {dec(ts_delay)}",
+           f"def tsDefaultDuration : Bool × Nat × Nat := {dec(ts_dur)}",
+           f"def tsDefaultRepeatInfinite : Bool := {'true' if ts_rep == 'Repeat::Infinite' else 'false'}",
+           f"def tsDefaultReverse : Bool := {ts_rev}",
            "\nend Gen"]
     return "\n".join(out) + "\n"
 
